@@ -33,6 +33,7 @@ def opts(tier):
     o.max_channels = 4
     o.props = False
     o.many_segments_p = 0.01
+    o.long_run_p = 0.006
     o.short_last_p = 0.05
     o.equal_shapes_p = 0.15
 
